@@ -5,7 +5,7 @@
 Set Default Timeout 20.
 From Coq Require Import String Ascii List Bool ZArith Lia.
 From Verif Require Import Base.Str Base.Percent Base.Base64 Base.Py Base.Py2 C15.Model C15.Spec C15.Proofs.
-From VerifGen Require Import C15Tables C15Src2 C15Src2v.
+From VerifGen Require Import C15Tables C15Src2 C15Src2v C15Src2p.
 Import ListNotations.
 Open Scope string_scope.
 
@@ -711,3 +711,200 @@ Proof.
     induction l as [|[k v] r IH]; [reflexivity|]. cbn [map fst snd]. rewrite IH. reflexivity.
   - intros k d m. cbn. rewrite Nat2Z.id. reflexivity.
 Qed.
+
+(* ================================================================== the receiving entry points (strengthening round 6)
+   Server.parse_authn_request and Entity.parse_logout_request - what the web layer calls with the SAMLRequest,
+   RelayState, SigAlg and Signature values it RECEIVED - and Request.loads are pass-throughs: every value goes on to
+   Entity._parse_request / Request._loads exactly as it was handed over, for ANY callee.  (The value that is verified
+   must be the value that was received: a 'repair' of the base64 text, a second decoding, trimmed white space at an
+   entry point makes the URL with the changed value verify.  Entity._parse_request between them is not translated;
+   its hand-over is exercised by the correspondence cases `stack-reencode` / `stack-presence`.) *)
+Section EntryPoints.
+  Variable parse_request_ext : pyval -> pyval -> pyval -> pyval -> pyval -> pyval -> pyval -> pyval -> pyval.
+  Variable loads_ext : pyval -> pyval -> pyval -> pyval -> pyval -> pyval -> pyval -> pyval -> pyval -> pyval.
+
+  Theorem src2_parse_authn_request_hands_over : forall self enc binding rs sigalg sg,
+    is_bad enc = false -> is_bad binding = false -> is_bad rs = false -> is_bad sigalg = false -> is_bad sg = false ->
+    src2_parse_authn_request parse_request_ext self enc binding rs sigalg sg
+    = parse_request_ext self enc (PStr "class AuthnRequest") (PStr "single_sign_on_service") binding rs sigalg sg.
+  Proof.
+    intros self enc binding rs sigalg sg H1 H2 H3 H4 H5. unfold src2_parse_authn_request.
+    rewrite (py_bind_good enc) by exact H1. rewrite (py_bind_good binding) by exact H2.
+    rewrite (py_bind_good rs) by exact H3. rewrite (py_bind_good sigalg) by exact H4.
+    rewrite (py_bind_good sg) by exact H5. reflexivity.
+  Qed.
+
+  Theorem src2_parse_logout_request_hands_over : forall self enc binding rs sigalg sg,
+    is_bad enc = false -> is_bad binding = false -> is_bad rs = false -> is_bad sigalg = false -> is_bad sg = false ->
+    src2_parse_logout_request parse_request_ext self enc binding rs sigalg sg
+    = parse_request_ext self enc (PStr "class LogoutRequest") (PStr "single_logout_service") binding rs sigalg sg.
+  Proof.
+    intros self enc binding rs sigalg sg H1 H2 H3 H4 H5. unfold src2_parse_logout_request.
+    rewrite (py_bind_good enc) by exact H1. rewrite (py_bind_good binding) by exact H2.
+    rewrite (py_bind_good rs) by exact H3. rewrite (py_bind_good sigalg) by exact H4.
+    rewrite (py_bind_good sg) by exact H5. reflexivity.
+  Qed.
+
+  Theorem src2_request_loads_hands_over : forall self xmldata binding origdoc must ovc rs sigalg sg,
+    is_bad xmldata = false -> is_bad binding = false -> is_bad origdoc = false -> is_bad must = false ->
+    is_bad ovc = false -> is_bad rs = false -> is_bad sigalg = false -> is_bad sg = false ->
+    src2_request_loads loads_ext self xmldata binding origdoc must ovc rs sigalg sg
+    = loads_ext self xmldata binding origdoc must ovc rs sigalg sg.
+  Proof.
+    intros self xmldata binding origdoc must ovc rs sigalg sg H1 H2 H3 H4 H5 H6 H7 H8. unfold src2_request_loads.
+    rewrite (py_bind_good xmldata) by exact H1. rewrite (py_bind_good binding) by exact H2.
+    rewrite (py_bind_good origdoc) by exact H3. rewrite (py_bind_good must) by exact H4.
+    rewrite (py_bind_good ovc) by exact H5. rewrite (py_bind_good rs) by exact H6.
+    rewrite (py_bind_good sigalg) by exact H7. rewrite (py_bind_good sg) by exact H8. reflexivity.
+  Qed.
+End EntryPoints.
+
+(* ================================================================== Entity._parse_request (strengthening round 6)
+   The function between the entry points and Request.loads, translated from the current source text (gen/C15Src2p.v).
+   For ALL configuration look-ups, request constructors, unravel functions and request objects - nothing is assumed
+   about any of them - and all arguments: either an exception (or a poisoned value) leaves the function, or its result
+   is what it makes (pr_tail: None when the request does not verify, else the request) of the answer of
+       _request.loads(<some xmlstr>, binding, origdoc=enc_request, must=.., only_valid_cert=..,
+                      relay_state=relay_state, sigalg=sigalg, signature=signature)
+   with the FOUR RECEIVED VALUES enc_request, relay_state, sigalg, signature AS THEY WERE HANDED OVER - on every path
+   (receiver addresses found at once or in the loop over aa / aq / pdp, any accepted_time_diff, any form of
+   want_authn_requests_only_with_valid_cert).  A hand-over of `relay_state or None`, of a value decoded once more,
+   repaired or trimmed breaks this theorem (seeds C15-7, C15-a and their neighbourhood). *)
+Section ParseRequest.
+  Variable endpoint_ext : pyval -> pyval -> pyval -> pyval -> pyval.
+  Variable mkreq_ext : pyval -> pyval -> pyval -> pyval -> pyval -> pyval.
+  Variable unravel_ext : pyval -> pyval -> pyval -> pyval -> pyval.
+  Variable cfg_getattr_ext : pyval -> pyval -> pyval -> pyval.
+  Variable loads_ext : pyval -> pyval -> pyval -> pyval -> pyval -> pyval -> pyval -> pyval -> pyval -> pyval.
+  Variable verify_ext : pyval -> pyval.
+  Variables enc binding rs sigalg sg : pyval.
+
+  (* what _parse_request does with the answer of _request.loads(...) *)
+  Definition pr_tail (r : pyval) : pyval :=
+    let k := fun (_ : unit) =>
+      match p2_branch (p2_not r) with BTrue => PNone | BFalse => r | BExc n => PExc n | BErr => PErr end in
+    match p2_branch r with
+    | BTrue => match p2_branch (p2_not (verify_ext r)) with
+               | BTrue => PNone | BFalse => k tt | BExc n => PExc n | BErr => PErr end
+    | BFalse => k tt
+    | BExc n => PExc n
+    | BErr => PErr
+    end.
+
+  Definition handed_over (r : pyval) : Prop :=
+    is_bad r = true
+    \/ exists rq xml must ovc, r = pr_tail (loads_ext rq xml binding enc must ovc rs sigalg sg).
+
+  Lemma ho_bad r : is_bad r = true -> handed_over r.
+  Proof. intros H. left. exact H. Qed.
+
+  Lemma ho_bind e k : (forall v, handed_over (k v)) -> handed_over (py_bind e k).
+  Proof. intros H. destruct e; cbn [py_bind]; try apply H; apply ho_bad; reflexivity. Qed.
+
+  Lemma ho_bindh h e k : (forall n, handed_over (h n)) -> (forall v, handed_over (k v)) -> handed_over (py_bindh h e k).
+  Proof. intros Hh H. destruct e; cbn [py_bindh p2_bind]; try apply H; try apply Hh; apply ho_bad; reflexivity. Qed.
+
+  Lemma ho_branch c a b : handed_over a -> handed_over b ->
+    handed_over (match p2_branch c with BTrue => a | BFalse => b | BExc n => PExc n | BErr => PErr end).
+  Proof. intros Ha Hb. destruct (p2_branch c); try assumption; apply ho_bad; reflexivity. Qed.
+
+  Lemma ho_branch_h c a b (h : string -> pyval) : handed_over a -> handed_over b -> (forall n, handed_over (h n)) ->
+    handed_over (match p2_branch c with BTrue => a | BFalse => b | BExc n => h n | BErr => PErr end).
+  Proof. intros Ha Hb Hh. destruct (p2_branch c); try assumption; [apply Hh|apply ho_bad; reflexivity]. Qed.
+
+  Lemma ho_let {A : Type} (P : A -> Prop) (v : A) (b : A -> pyval) :
+    P v -> (forall k, P k -> handed_over (b k)) -> handed_over (let k := v in b k).
+  Proof. intros Hv H. cbv zeta. apply H. exact Hv. Qed.
+
+  (* a loop whose body returns (RetS) poisoned values only *)
+  Lemma pyfor2_rets body : (forall st x r, body st x = RetS r -> is_bad r = true) ->
+    forall xs st r, pyfor2 xs st body = RetS r -> is_bad r = true.
+  Proof.
+    intros Hb xs. induction xs as [|x t IH]; intros st r; cbn [pyfor2]; [discriminate|].
+    destruct (body st x) eqn:E; try discriminate; [apply IH|]. intros H. injection H as <-. exact (Hb _ _ _ E).
+  Qed.
+
+  Lemma bind_cases e k : (is_bad e = true /\ py_bind e k = e) \/ (is_bad e = false /\ py_bind e k = k e).
+  Proof. destruct e; cbn; auto. Qed.
+
+  Lemma ho_loads e k :
+    (is_bad e = true \/ exists rq xml must ovc, e = loads_ext rq xml binding enc must ovc rs sigalg sg) ->
+    (forall r, k r = pr_tail r) -> handed_over (py_bind e k).
+  Proof.
+    intros He Hk. destruct (bind_cases e k) as [[Hb ->]|[Hg ->]]; [left; exact Hb|].
+    destruct He as [Hb|[rq [xml [must [ovc ->]]]]]; [congruence|].
+    right. exists rq, xml, must, ovc. apply Hk.
+  Qed.
+
+  Variables self request_cls service : pyval.
+
+  Ltac chain :=
+    repeat (cbv beta; lazymatch goal with
+            | |- is_bad (py_bind ?e ?k) = true \/ _ =>
+                destruct (bind_cases e k) as [[?Hb ->]|[?Hg ->]]; [left; assumption|]
+            end);
+    cbv beta; right; do 4 eexists; reflexivity.
+
+  Ltac step :=
+    cbv beta;
+    lazymatch goal with
+    | |- handed_over (let k := ?v in @?b k) =>
+        let T := type of v in
+        lazymatch T with
+        | pyval -> pyval => apply (ho_let (fun k : pyval -> pyval => forall x, handed_over (k x)) v b); [intros ?x|intros ?k ?Hk]
+        | unit -> pyval => apply (ho_let (fun k : unit -> pyval => handed_over (k tt)) v b); [|intros ?k ?Hk]
+        | string -> pyval -> pyval =>
+            apply (ho_let (fun k : string -> pyval -> pyval => forall n x, handed_over (k n x)) v b); [intros ?n ?x|intros ?k ?Hk]
+        | pyval => apply (ho_let (fun _ : pyval => True) v b); [exact I|intros ?x _]
+        end
+    | |- handed_over (py_bind ?e ?k) =>
+        lazymatch e with
+        | context [loads_ext] => apply ho_loads; [chain|intros ?r; reflexivity]
+        | _ => apply ho_bind; intros ?v
+        end
+    | |- handed_over (py_bindh _ _ _) => apply ho_bindh; [intros ?n|intros ?v]
+    | |- handed_over (match p2_branch _ with _ => _ end) => first [apply ho_branch|apply ho_branch_h; [| |intros ?n]]
+    | |- handed_over (match pyfor2 ?xs ?st0 ?body with _ => _ end) =>
+        let E := fresh "E" in
+        assert (Hbody : forall s1 x1 r1, body s1 x1 = RetS r1 -> is_bad r1 = true);
+        [ intros [|?a [|?b ?t]] ?x ?r; cbv beta zeta; try (intros H; injection H as <-; reflexivity);
+          match goal with |- py_bindS _ ?e _ = _ -> _ => destruct e end; cbn [py_bindS p2_bind];
+          try discriminate; try (intros H; injection H as <-; reflexivity);
+          match goal with |- match p2_branch ?c with _ => _ end = _ -> _ => destruct (p2_branch c) end;
+          try discriminate; intros H; injection H as <-; reflexivity
+        | destruct (pyfor2 xs st0 body) as [[|?a [|?b ?t]]|[|?a [|?b ?t]]|?r|?n [|?a [|?b ?t]]] eqn:E;
+          try (apply ho_bad; reflexivity); try (apply ho_bad; exact (pyfor2_rets _ Hbody _ _ _ E)) ]
+    | |- handed_over (if exc_matches ?n ?l then _ else _) => destruct (exc_matches n l)
+    | |- handed_over (PExc _) => apply ho_bad; reflexivity
+    | |- handed_over PErr => apply ho_bad; reflexivity
+    | H : forall x, handed_over (?k x) |- handed_over (?k _) => apply H
+    | H : forall n x, handed_over (?k n x) |- handed_over (?k _ _) => apply H
+    | H : handed_over (?k tt) |- handed_over (?k tt) => exact H
+    end.
+
+  Theorem src2_parse_request_hands_over :
+    handed_over (src2_parse_request endpoint_ext mkreq_ext unravel_ext cfg_getattr_ext loads_ext verify_ext
+                                    self enc request_cls service binding rs sigalg sg).
+  Proof.
+    cbv beta delta [src2_parse_request].
+    repeat step.
+  Qed.
+End ParseRequest.
+
+(* non-vacuity: with externals that answer, the function reaches _request.loads and returns its answer; an "echo"
+   callee shows the four received values as they arrive there *)
+Definition ex_self : pyval :=
+  PObj [("__class__", PStr "Server"); ("entity_type", PStr "idp"); ("sec", PStr "sec");
+        ("config", PObj [("__class__", PStr "IdPConfig"); ("accepted_time_diff", PInt 60); ("attribute_converters", PList [])])].
+Definition ex_cls : pyval := PObj [("__class__", PStr "type"); ("msgtype", PStr "request")].
+Definition echo (rq xml b o m ovc r a s : pyval) : pyval := PList [o; r; a; s].
+
+Example parse_request_reaches_loads :
+  src2_parse_request (fun _ _ _ t => match t with PStr "aq" => PList [PStr "https://idp.example.org/sso"] | _ => PList [] end)
+                     (fun _ _ _ _ _ => PStr "request object") (fun _ _ _ _ => PStr "<xml/>")
+                     (fun _ n _ => match n with PStr "want_authn_requests_signed" => PBool true | _ => PStr " Yes " end)
+                     echo (fun _ => PBool true)
+                     ex_self (PStr "fZ+J/A==") ex_cls (PStr "single_sign_on_service") (PStr "redirect")
+                     (PStr " a+b%2B ") PNone (PStr "")
+  = PList [PStr "fZ+J/A=="; PStr " a+b%2B "; PNone; PStr ""].
+Proof. vm_compute. reflexivity. Qed.
